@@ -264,6 +264,7 @@ class _FakeServer:
         self.sockets = [_FakeSocket((host or "127.0.0.1", port or 54321))]
         self.closed = False
         ctx.cur().fault_state["server"] = self
+        ctx.cur().fault_state.setdefault("servers", []).append(self)
 
     def close(self):
         self.closed = True
